@@ -73,6 +73,16 @@ def _targets_one(env: P.Env, t, base: dict, ordered: bool, backend: str) -> list
             diffs.append(dict(kind="target_error", target=tgt, exc=P.exc_class(e), msg=str(e)[:150]))
     # expression export: every visible column, and one derived expression
     try:
+        # … the column objects obtained by iterating the table are the table's columns, like `t[name]`
+        for col in list(t)[:3]:
+            name = col.name
+            s = col.export(pdt.Polars())
+            vals = [P.encode_val(x) for x in s.to_list()]
+            exp = [r[base["names"].index(name)] for r in base["rows"]]
+            if not ordered:
+                vals, exp = sorted(vals, key=lambda x: oracle.sort_key([x])), sorted(exp, key=lambda x: oracle.sort_key([x]))
+            if len(vals) != len(exp) or not all(oracle.cell_eq(a, b) for a, b in zip(vals, exp)):
+                diffs.append(dict(kind="colexpr_export_differs", column=name, via="iteration", got=vals[:6], expected=exp[:6]))
         for name in base["names"][:3]:
             s = t[name].export(pdt.Polars())
             vals = [P.encode_val(x) for x in s.to_list()]
